@@ -23,13 +23,13 @@ MANIFEST = dict(
     category="proof",
     text=("Heap model of attr.Set (aliasing explicit) with theorems over all set/add/clone histories: no-sharing invariant "
           "reachable, Compare is a total preorder, equality <=> same flags and pairs, clone equal and independent; "
-          "text forms: Fields/Join inverse and injective regenerated dictionaries proved, unrestricted round trips refuted "
-          "by witnesses (known findings). Model tied to the code by differential execution of histories and parsers; "
+          "text forms: versiontest String/ParseString round trip proved on its carrier (non-empty space-free values), Fields/Join inverse and "
+          "injective regenerated dictionaries proved, unrestricted round trips refuted by witnesses (known findings). Model tied to the code by differential execution of histories and parsers; "
           "value semantics additionally checked against a map-based reference on the Go outputs."),
     note=("Trusted: Coq 8.16.1 kernel (+vm_compute), translator gotables, extraction (ExtrOcamlBasic only) and driver.ml, "
           "the Go harness and python generators/oracles. The Gallina model is hand-written and validated against the "
           "implementation by execution on every run (correspondence), not verified against the Go source. "
-          "Round-trip composition (write then parse) is decided by correspondence+oracle, not a theorem. "
+          "versiontest round trip is a theorem (C19_ver_roundtrip); the deptest composition (quoted values) is decided by correspondence+oracle. "
           "strconv.Quote/Unquote and strings.Fields modelled on ASCII only."),
     technique="Rocq proof over a hand-written heap model + differential correspondence (extracted OCaml vs Go)",
     design="8 C19")
